@@ -30,6 +30,13 @@ class Failure:
 
 KINDS = [
     ('postcondition not satisfied', 'ensures'),
+    ('unable to prove post-condition of closure', 'ensures'),
+    ('unable to prove this pattern will successfully match', 'panic'),
+    ('may fail to meet its declared type invariant', 'invariant'),
+    ('cannot show invariant holds', 'invariant'),
+    ('bitvector assertion not satisfied', 'assert'),
+    ('impossible case reached', 'panic'),
+    ('requires not satisfied', 'requires'),
     ('precondition not satisfied', 'requires'),
     ('invariant not satisfied', 'invariant'),
     ('loop invariant', 'invariant'),
@@ -162,7 +169,7 @@ def run(unit_text, workdir, name, rlimit=None, seed=None, extra=(), census=True,
 
 def _is_verification_msg(msg):
     ml = msg.lower()
-    return any(x in ml for x in ('not satisfied', 'assertion', 'overflow', 'underflow', 'termination',
+    return any(x in ml for x in ('not satisfied', 'assertion', 'overflow', 'underflow', 'termination', 'unable to prove', 'may fail to meet', 'cannot show', 'impossible case',
                                  'decreases', 'recommendation', 'type invariant', 'resource limit', 'rlimit', 'division by zero'))
 
 
